@@ -406,6 +406,10 @@ def run(ctx: Ctx) -> None:
                     "default and the call is keyed as f(): a later direct `dds.keep('/p', f)` is served the blob computed with a=5"],
                     "default-under-mapping", what="a kept call seen in source with a ** mapping is bound as if the arguments were omitted")
     rep.floor("C13.R5", n5, 1)
+    from .c05 import falsy_distinct
+    rep.rule("C13.R10", "calls that bind a different value get a different signature, falsy values included: None, 0, 0.0, \"\", [] and {} are digested from different bytes")
+    n10 = falsy_distinct(ctx, "C13.R10")
+    rep.floor("C13.R10", n10, 6)
     a, b = skeleton.get(rt.qname, {}), skeleton.get(lit.qname, {})
     desc = "both binders choose the value source in the order positional, keyword, default"
     if a.get("order") == b.get("order") == ["positional", "keyword", "default"]:
@@ -436,6 +440,12 @@ def _site(ctx: Ctx, g: Func, call: ast.Call, arg: ast.AST) -> None:
     # abstract evaluation of the normaliser on the three classes
     srcs = [n for n in ast.walk(arg) if _classify(n)[0] is not None]
     if not srcs:
+        whole = [n for n in ast.walk(arg) if isinstance(n, ast.Name) and n.id in ("args", "kwargs") and n.id in g.params]
+        if whole:
+            rep.bad("C13.R2", g.qname, desc, where, [f"{where}: `{unparse(arg, 60)}` hashes the whole `{whole[0].id}` collection where the value bound to one parameter is expected",
+                    "the signature then depends on how the other arguments are spelled: f(a=1, b=2), f(b=2, a=1) and f(1, b=2) get three signatures, none equal to the one "
+                    "computed from the same call seen in source"], stmt_key(call), what=f"the whole `{whole[0].id}` collection is hashed in place of one bound value")
+            return
         rep.info("C13.R2", g.qname, f"hashing site `{unparse(call, 50)}` does not hash a bound argument", where)
         return
     src = srcs[0]
